@@ -1248,7 +1248,7 @@ Proof.
     destruct (find_sess sid st) as [s|] eqn:Ef;
     try (intros [E|[]]; inversion E; subst; exact Hinv);
     destruct (find_sess_in _ _ _ Ef) as [Hin Hid].
-  - destruct (s_ppp s && s_live s && negb (s_started s)); [apply step_pa_inv; auto|].
+  - destruct (s_ppp s && s_live s); [apply step_pa_inv; auto|].
     intros [E|[]]; inversion E; subst; exact Hinv.
   - destruct (s_ppp s) eqn:Ep; cbn [andb]; [|intros [E|[]]; inversion E; subst; exact Hinv].
     destruct (s_live s && s_started s && negb (s_ipcp s)); [apply step_pi_inv; auto|].
@@ -1558,7 +1558,7 @@ Proof.
       - exact Hst. }
   all: destruct (find_sess sid st) as [s|] eqn:Ef; try (intros [E|[]]; inversion E; subst; exact Hinv);
        pose proof (Hfind _ _ Ef) as Hs.
-  - destruct (s_ppp s && s_live s && negb (s_started s)); [|intros [E|[]]; inversion E; subst; exact Hinv].
+  - destruct (s_ppp s && s_live s); [|intros [E|[]]; inversion E; subst; exact Hinv].
     unfold step_pa, bindl. intros H.
     apply in_flat_map in H. destruct H as ([[[r1 a4] p4] ok4] & _ & H).
     apply in_flat_map in H. destruct H as ([[[r2 a6] p6] ok6] & _ & H).
@@ -1678,10 +1678,9 @@ Proof.
   rewrite Hc0 in H. discriminate.
 Qed.
 
-(* known finding "dhcp4-unresolved-answered-from-lease-table": needs a lease-table entry of the MAC *)
-Lemma trigger_unresolved r pr s isreq rq :
-  assoc (s_mac s) (by_mac pr) = None -> unresolved Head r pr s isreq rq = None.
-Proof. intros H. unfold unresolved. rewrite H. destruct (d4 Head); reflexivity. Qed.
+(* "dhcp4-unresolved-answered-from-lease-table" is fixed in /repo (d5fadd1): HEAD never answers an unresolved request *)
+Lemma trigger_unresolved r pr s isreq rq : unresolved Head r pr s isreq rq = None.
+Proof. reflexivity. Qed.
 
 (* the AAA pool override matters only when it names a pool of another VRF *)
 Lemma trigger_override f prof ov vrf s r :
